@@ -46,6 +46,7 @@ C14_shape_array C14_shape_entities C14_shape_no_other_sites C14_shape_helpers C1
 C14_complete_NoDataType C14_complete_feature_entries
 C14_guards_entity C14_guards_file C14_guards_property C14_guards_feature C14_guards_range C14_guards_sampled
 C14_guards_array C14_guards_tag C14_guards_multi_tag C14_guards_opaque C14_guards_cover C14_guards_locals
+C14_guards_get_dim_units
 """.split()]
 ASSUMPTIONS = [
     "the validator reads the file only through the public API; the model works on a description of what those reads "
